@@ -207,3 +207,14 @@ Proof.
   assert (F := INR_fact_neq_0 k). assert (G := INR_fact_neq_0 (n1 + n2 - k)).
   field. repeat split; assumption.
 Qed.
+
+Lemma hyper_pmf_def : forall N K n x, hyper_pmf N K n x = C K x * C (N - K) (n - x) / C N n.
+Proof. reflexivity. Qed.
+
+Lemma hyper_setup_def : forall N K n : Z,
+  hyper_setup N K n =
+  (let '(sign_x, offset_x, n1, n2) :=
+     if (K >? N - K)%Z then ((-1)%Z, n, (N - K)%Z, K) else (1%Z, 0%Z, K, (N - K)%Z) in
+   if (n <=? N / 2)%Z then (n1, n2, n, sign_x, offset_x)
+   else (n1, n2, (N - n)%Z, (sign_x * -1)%Z, (offset_x + n1 * sign_x)%Z)).
+Proof. reflexivity. Qed.
